@@ -40,6 +40,7 @@ const (
 	KCleanUp
 	KAll
 	KEstimatedSize
+	KAdvance   // harness: move the manual clock (trials with expiry)
 	KFinalRead // harness: GetEntryQuietly at quiescence
 	KEvict     // harness: automatic removal reported by the handlers
 	KInstall   // harness: a finished load whose value was observed as installed
@@ -47,7 +48,7 @@ const (
 )
 
 var KindNames = []string{"Set", "SetIfAbsent", "GetIfPresent", "GetEntry", "Compute", "ComputeIfAbsent", "ComputeIfPresent",
-	"Invalidate", "Get", "InvalidateAll", "SetMaximum", "Hottest", "Coldest", "GetMaximum", "WeightedSize", "CleanUp", "All", "EstimatedSize",
+	"Invalidate", "Get", "InvalidateAll", "SetMaximum", "Hottest", "Coldest", "GetMaximum", "WeightedSize", "CleanUp", "All", "EstimatedSize", "advanceClock",
 	"finalRead", "evict", "install"}
 
 const (
@@ -112,6 +113,7 @@ type TrialCfg struct {
 	Stats     bool    `json:"stats"`
 	MaxChoices []uint64 `json:"max_choices,omitempty"`
 	Procs     int     `json:"procs,omitempty"`
+	ExpiryTTL int64   `json:"expiry_ttl,omitempty"` // > 0: write-reset expiry with this ttl and a manual clock moved by the workers
 }
 
 // Trial is a running / finished trial.
@@ -131,6 +133,7 @@ type Trial struct {
 	stalled atomic.Bool
 	loaderV atomic.Int64
 	loads   atomic.Int64
+	Clock   *phaseClock
 	bodyWrites   sync.WaitGroup // writes issued by other goroutines while an iteration holds the eviction lock
 	statSamples  atomic.Int64
 	statDecrease atomic.Pointer[string]
@@ -267,6 +270,12 @@ func NewTrial(cfg TrialCfg) (*Trial, error) {
 	if cfg.Stats {
 		t.Counter = stats.NewCounter()
 		o.StatsRecorder = t.Counter
+	}
+	if cfg.ExpiryTTL > 0 {
+		t.Clock = &phaseClock{tick: make(chan time.Time)}
+		t.Clock.now.Store(1_000_000_000)
+		o.Clock = t.Clock
+		o.ExpiryCalculator = otter.ExpiryWriting[int, int](time.Duration(cfg.ExpiryTTL))
 	}
 	c, err := otter.New(o)
 	if err != nil {
@@ -459,6 +468,14 @@ func (t *Trial) worker(w int, rng *core.Rng, out *[]Rec) {
 			r.Call = t.now()
 			r.RV = c.EstimatedSize()
 			r.Ret = t.now()
+		case KAdvance:
+			if t.Clock != nil {
+				step := int64(rng.Intn(int(2*cfg.ExpiryTTL))) + 1
+				if rng.Chance(1, 6) {
+					step += int64(1) << 30 // past a timer-wheel tick: the sweep can remove it
+				}
+				t.Clock.now.Add(step)
+			}
 		}
 		recs = append(recs, r)
 		progress.Add(1)
